@@ -45,3 +45,13 @@ CHECKS['C14'] = ('model_checking',
   'For every distinct attack-graph state reached by the bounded history search: the deep copy has equal observation, counters and lookups, shares the model and language graph but no node, attacker or per-node container (children, parents, compromised_by, tags, extras, ttc incl. arguments), all its references stay inside the copy, and every single operation of the C09 alphabet plus five in-place edits applied to one side leaves the other side unchanged.',
   'Trusted: CPython. Pairs of mutations only in the thorough tier.',
   'DESIGN.md 3/C14')
+CHECKS['C10'] = ('model_checking',
+  'every attack-graph state reached by the history search x {json, yml} x {model given, absent}: typed save/load round trip compared attribute by attribute',
+  'Every distinct attack-graph state reached by the bounded C09 search (attackers attached/added/compromised, analysed, pruned, copied, already loaded once), as is and decorated with extras/tags/MITRE/false flags, is written to JSON and YAML and loaded back with and without the model: node ids, names, types, TTC, statuses and flags with their Python types, tags as a list of strings, extras, edge sets, attackers with entry points and reached steps, asset binding, and second-generation stability.',
+  'Trusted: json, PyYAML. Edge multiplicity and node.attributes are not part of the file format and not compared.',
+  'DESIGN.md 3/C10')
+CHECKS['C12'] = ('model_checking',
+  'bounded-exhaustive enumeration of labelled synthetic graphs x all compromise sequences, queries compared with a 3-line reference after every step',
+  'Every graph with <=3 nodes over 14 kinds (or/and with arbitrary viability/necessity flags, defenses with status 0/0.5/1 and suppress tag), every edge subset, every compromise sequence up to the bound (second attacker present): traversability of every node, the attack surface, the incrementally updated surface vs the recomputed one, defense surface, enabled defenses, and the graph observation before/after every query.',
+  'Trusted: the reference definitions copied from the property statement.',
+  'DESIGN.md 3/C12')
